@@ -417,7 +417,9 @@ def check_property(pid, tier, seed):
             "samples": samples_out or [{"note": "no path completed"}],
             "explanation": "states = symbolic paths explored to completion by symx (each stands for the class of all inputs satisfying its path condition); transitions = branch decisions (solver-decided forks + enumerated symChoice forks); traces_validated = sampled path witnesses replayed natively (go test -overlay) whose observations equal the engine's",
             "exhaustive": all((r.get("verdict", "").startswith("holds") or r.get("verdict") == "violated") for r in obl_reports) and not inconclusive,
-            "obligations": obl_reports,
+            "obligations": len(obl_reports),
+            "discharged": sum(1 for r in obl_reports if r.get("verdict", "").startswith("holds")),
+            "obligation_reports": obl_reports,
             "functions_encoded": dict(sorted(funcs.items())),
             "stdlib_interpreted": sorted(stdf.keys()),
             "models_used": sorted(models.keys()),
